@@ -24,6 +24,7 @@ func init() {
 	register("C06", func(c *Ctx) {
 		p := c.P
 		hm := c.handlerModels()
+		checkMerge(c, "C06") // each push/pull entry gets its own claim (the timer closure keeps the claim it was given)
 		c.Assume("the logarithmic schedule itself (float64 log(n+1)/log(k+1)), time.Timer punctuality and suspicionTimeout's numeric value are not decided")
 
 		// ---- 1. Confirm: counted once per distinct confirmer, never beyond k, registered before returning
